@@ -15,8 +15,9 @@ import lib  # noqa: E402
 CUSTOM = '''
 from replicat.backends.base import Backend
 class Custom(Backend):
-    def __init__(self, connection_string, *, token='builtin-token', level=3, flag=False):
+    def __init__(self, connection_string, *, token='builtin-token', level=3, flag=False, legacy: bool = True, secret: str = 'builtin-secret'):
         self.connection_string, self.token, self.level, self.flag = connection_string, token, level, flag
+        self.legacy, self.secret = legacy, secret
     async def exists(self, name): return False
     async def upload(self, name, data): pass
     async def upload_stream(self, name, stream, length, chunk_size=1): pass
@@ -61,6 +62,14 @@ OPTIONS = {
         'cli': (['--flag', 'true'], True), 'env': ({'CUSTOM_FLAG': 'True'}, True),
         'profile': ('flag = true', True), 'default': ('flag = "true"', True), 'builtin': False,
         'get': lambda rec: rec['backend'].flag, 'backend': 'custom'},
+    'legacy': {    # ANNOTATED custom options: the text of a value means the same whichever source supplied it
+        'cli': (['--legacy', 'false'], False), 'env': ({'CUSTOM_LEGACY': 'False'}, False),
+        'profile': ('legacy = false', False), 'default': ('legacy = "false"', False), 'builtin': True,
+        'get': lambda rec: rec['backend'].legacy, 'backend': 'custom'},
+    'secret': {
+        'cli': (['--secret', '4455'], 4455), 'env': ({'CUSTOM_SECRET': '4466'}, 4466),
+        'profile': ('secret = 4477', 4477), 'default': ('secret = "4488"', 4488), 'builtin': 'builtin-secret',
+        'get': lambda rec: rec['backend'].secret, 'backend': 'custom'},
     'region': {    # s3c backend option
         'cli': (['--region', 'r-cli'], 'r-cli'), 'env': ({'S3C_REGION': 'r-env'}, 'r-env'),
         'profile': ('region = "r-profile"', 'r-profile'), 'default': ('region = "r-default"', 'r-default'), 'builtin': 'REQUIRED',
